@@ -1898,4 +1898,167 @@ theorem ledger_step {a : Auth} {e : AEv} {L : List (Nat × Key)} (hi : AInv a) (
             simp only [removes, Prod.mk.injEq] at hrm
             exact hr'.2 hrm.2
 
+
+/-- histories in which every `watch` call brings a new watcher (as `WatchResource` does: the returned cancel
+    function is tied to that registration) -/
+def FreshRun : Auth → List AEv → Prop
+  | _, [] => True
+  | a, e :: es => Fresh a e ∧ FreshRun (a.step e).auth es
+
+theorem inv_run (es : List AEv) (a : Auth) (hi : AInv a) (hf : FreshRun a es) : AInv (Auth.run a es) := by
+  induction es generalizing a with
+  | nil => exact hi
+  | cons e es ih => exact ih _ (inv_step hi hf.1) hf.2
+
+theorem watched_run (es : List AEv) (a : Auth) (hi : AInv a) (hw : Watched a) (hf : FreshRun a es) :
+    Watched (Auth.run a es) := by
+  induction es generalizing a with
+  | nil => exact hw
+  | cons e es ih => exact ih _ (inv_step hi hf.1) (watched_step hi hw) hf.2
+
+
+theorem head_filter_le (l : List Nat) (hl : l.Pairwise (· < ·)) (f : Nat → Bool) (y z : Nat)
+    (hy : (l.filter f).head? = some y) (hz : z ∈ l.filter f) : y ≤ z := by
+  induction l with
+  | nil => simp at hz
+  | cons u us ih =>
+    rw [List.pairwise_cons] at hl
+    simp only [List.filter_cons] at hy hz
+    split at hy
+    · simp only [List.head?_cons, Option.some.injEq] at hy
+      subst hy
+      rename_i hf
+      simp only [hf, ↓reduceIte, List.mem_cons] at hz
+      rcases hz with rfl | hz
+      · exact Nat.le_refl _
+      · exact Nat.le_of_lt (hl.1 z (List.mem_filter.mp hz).1)
+    · rename_i hf
+      simp only [hf] at hz
+      exact ih hl.2 hy hz
+
+/-- `nextServer` returns the FIRST server after `srv` without a channel -/
+theorem nextServer_between {a : Auth} {srv j : Nat} (hn : nextServer a srv = some j) (x : Nat)
+    (hx1 : srv < x) (hx2 : x < j) : x ∈ a.opened := by
+  have hm := mem_nextServer hn
+  unfold nextServer at hn
+  rcases Classical.em (x ∈ a.opened) with h | h
+  · exact h
+  · exfalso
+    have hxmem : x ∈ (List.range a.n).filter fun i => decide (srv < i) && !a.opened.contains i := by
+      simp only [List.mem_filter, List.mem_range, Bool.and_eq_true, decide_eq_true_eq, Bool.not_eq_true',
+        List.contains_eq_mem, decide_eq_false_iff_not]
+      exact ⟨by omega, hx1, h⟩
+    have := head_filter_le (List.range a.n) List.pairwise_lt_range _ j x hn hxmem
+    omega
+
+theorem nextServer_none {a : Auth} {srv : Nat} (hn : nextServer a srv = none) (x : Nat) (hx1 : srv < x) (hx2 : x < a.n) :
+    x ∈ a.opened := by
+  unfold nextServer at hn
+  rcases Classical.em (x ∈ a.opened) with h | h
+  · exact h
+  · exfalso
+    have hxmem : x ∈ (List.range a.n).filter fun i => decide (srv < i) && !a.opened.contains i := by
+      simp only [List.mem_filter, List.mem_range, Bool.and_eq_true, decide_eq_true_eq, Bool.not_eq_true',
+        List.contains_eq_mem, decide_eq_false_iff_not]
+      exact ⟨hx2, hx1, h⟩
+    rw [List.head?_eq_none_iff] at hn
+    rw [hn] at hxmem
+    simp at hxmem
+
+/-- the channels the authority holds are exactly those of the servers 0 … active -/
+def Prefix (a : Auth) : Prop :=
+  (a.active = none → a.opened = []) ∧ ∀ act, a.active = some act → ∀ i, i ∈ a.opened ↔ i ≤ act
+
+/-- failure reports and updates come from servers the authority currently has a channel to (no stale events) -/
+def FromOpen (a : Auth) : AEv → Prop
+  | .failure srv _ => srv ∈ a.opened
+  | .update srv _ _ _ _ => srv ∈ a.opened
+  | _ => True
+
+theorem prefix_step {a : Auth} {e : AEv} (hp : Prefix a) (he : FromOpen a e) : Prefix (a.step e).auth := by
+  obtain ⟨hp0, hp1⟩ := hp
+  cases e with
+  | update srv gen typ ver es =>
+    simp only [FromOpen] at he
+    simp only [Auth.step]
+    cases hact : a.active with
+    | none => simp only [handleUpdate, revert_none hact]; exact ⟨hp0, hp1⟩
+    | some act =>
+      by_cases h1 : srv = act
+      · subst h1
+        simp only [handleUpdate, revert_same hact, ↓reduceIte, processUpdate_res]
+        exact ⟨hp0, hp1⟩
+      · by_cases h2 : act < srv
+        · simp only [handleUpdate, revert_below hact h2]; exact ⟨hp0, hp1⟩
+        · have h3 : srv < act := by omega
+          simp only [handleUpdate, revert_above hact h3, ↓reduceIte, processUpdate_res]
+          refine ⟨by simp [revertTo], ?_⟩
+          intro act' hact' i
+          simp only [revertTo, Option.some.injEq] at hact'
+          subst hact'
+          simp only [revertTo, List.mem_filter, decide_eq_true_eq]
+          have := hp1 act hact i
+          constructor
+          · exact fun h => h.2
+          · intro h; exact ⟨this.mpr (by omega), h⟩
+  | dne k => exact ⟨hp0, hp1⟩
+  | failure srv after =>
+    simp only [FromOpen] at he
+    simp only [Auth.step, handleFailure]
+    split
+    · exact ⟨hp0, hp1⟩
+    · split
+      · exact ⟨hp0, hp1⟩
+      · split
+        · rename_i j hn
+          have hm := mem_nextServer hn
+          cases hact : a.active with
+          | none => rw [hp0 hact] at he; simp at he
+          | some act =>
+            have hsrv := (hp1 act hact srv).mp he
+            have hj : j = act + 1 := by
+              have h1 : ¬ j ≤ act := fun h => hm.2.2 ((hp1 act hact j).mpr h)
+              rcases Nat.lt_or_ge (act + 1) j with h2 | h2
+              · have := nextServer_between hn (act + 1) (by omega) h2
+                have := (hp1 act hact (act + 1)).mp this
+                omega
+              · omega
+            refine ⟨by simp [fallbackTo], ?_⟩
+            intro act' hact' i
+            simp only [fallbackTo, Option.some.injEq] at hact'
+            subst hact'
+            simp only [fallbackTo, List.mem_append, List.mem_singleton]
+            have := hp1 act hact i
+            constructor
+            · rintro (h | h)
+              · have := this.mp h; omega
+              · omega
+            · intro h
+              rcases Nat.lt_or_ge act i with h2 | h2
+              · right; omega
+              · left; exact this.mpr h2
+        · exact ⟨hp0, hp1⟩
+  | watch k w =>
+    simp only [Auth.step, watch]
+    have hcu : Prefix (channelToUse a).1 := by
+      unfold channelToUse
+      cases hact : a.active with
+      | some act => exact ⟨by intro h; simp [hact] at h, by intro act' h; simp only at h; exact hp1 act' h⟩
+      | none =>
+        refine ⟨by simp, ?_⟩
+        intro act' h i
+        simp only [Option.some.injEq] at h
+        subst h
+        simp [hp0 hact]
+    split <;> exact hcu
+  | unwatch k w =>
+    simp only [Auth.step, unwatch]
+    split
+    · exact ⟨hp0, hp1⟩
+    · split
+      · exact ⟨hp0, hp1⟩
+      · split
+        · exact ⟨by simp, by simp⟩
+        · exact ⟨hp0, hp1⟩
+
 end GrpcProofs.Lemmas.XdsAuth
